@@ -41,10 +41,8 @@ theorem getSize_len {e : Nat} {bs : Bytes} {u : Nat} {r : Bytes} (h : getSize e 
     · exact absurd h (by simp)
     · split at h
       · exact absurd h (by simp)
-      · split at h
-        · exact absurd h (by simp)
-        · simp only [Except.ok.injEq, Prod.mk.injEq] at h
-          rw [← h.2]; exact getU_len hu
+      · simp only [Except.ok.injEq, Prod.mk.injEq] at h
+        rw [← h.2]; exact getU_len hu
 
 theorem getSize_nofuel (e : Nat) (bs : Bytes) : getSize e bs ≠ .error .fuel := by
   unfold getSize
@@ -54,24 +52,14 @@ theorem getSize_nofuel (e : Nat) (bs : Bytes) : getSize e bs ≠ .error .fuel :=
     exact getU_nofuel _ _ he
   · split
     · simp
-    · split
-      · simp
-      · split <;> simp
+    · split <;> simp
 
 theorem getStr_len {bs s r : Bytes} (h : getStr bs = .ok (s, r)) : r.length ≤ bs.length := by
   unfold getStr at h
   split at h
   · exact absurd h (by simp)
   · rename_i n r' hn
-    have := getSize_len hn
-    split at h
-    · simp only [Except.ok.injEq, Prod.mk.injEq] at h; rw [← h.2]; exact this
-    · split at h
-      · exact absurd h (by simp)
-      · split at h
-        · exact absurd h (by simp)
-        · simp only [Except.ok.injEq, Prod.mk.injEq] at h
-          rw [← h.2]; simp; omega
+    exact Nat.le_trans (takeN_len h) (getSize_len hn)
 
 theorem getStr_nofuel (bs : Bytes) : getStr bs ≠ .error .fuel := by
   unfold getStr
@@ -79,11 +67,7 @@ theorem getStr_nofuel (bs : Bytes) : getStr bs ≠ .error .fuel := by
   · rename_i e' he
     intro h; injection h with h; subst h
     exact getSize_nofuel _ _ he
-  · split
-    · simp
-    · split
-      · simp
-      · split <;> simp
+  · exact takeN_nofuel _ _
 
 theorem getWords_len : ∀ (n : Nat) (bs : Bytes) (ws : List (BitVec 32)) (r : Bytes),
     getWords n bs = .ok (ws, r) → r.length ≤ bs.length := by
@@ -240,6 +224,8 @@ theorem get_len : ∀ fuel : Nat,
         have l11 := getU_len h11
         split at h
         · exact absurd h (by simp)
+        split at h
+        · exact absurd h (by simp)
         rename_i nups r12 h12
         have l12 := getSize_len h12
         split at h
@@ -372,6 +358,8 @@ theorem get_nofuel : ∀ fuel : Nat,
         rename_i cc r11 h11
         have l11 := getU_len h11
         split at h
+        · exact absurd h (by simp)
+        split at h
         · rename_i e he
           injection h with h; subst h
           exact getSize_nofuel _ _ he
@@ -402,7 +390,7 @@ theorem get_nofuel : ∀ fuel : Nat,
         exact absurd h (by simp)
 
 /-- **`UnmarshalConst` is total**: on every byte string the reader returns a constant and the unread rest, or one
-    of the errors `eof`, `badType`, `badPrefix`, `recoveredPanic`, `hugeAlloc` — the fuel it is given always suffices -/
+    of the errors `eof`, `badType`, `badPrefix`, `badSize` — the fuel it is given always suffices -/
 theorem unmarshal_nofuel (bs : Bytes) : unmarshal bs ≠ .error .fuel := by
   unfold unmarshal
   split
